@@ -138,6 +138,7 @@ def k_seq(run, case):
     else:
         tr = gen.make_evo(arr, smode, stamped)
     tr2 = gen.make_evo(arr2, smode, stamped)
+    gen.age(rng, tr), gen.age(rng, tr2)
     mode_name = case.get("mode") or MODES[rng.integers(7)]
     mode = plot.PlotMode[mode_name]
     unit_name = case.get("unit") or ["mm", "cm", "m", "km"][rng.integers(4)]
